@@ -19,8 +19,8 @@ func init() {
 			"C18.T2: every index/slice site in that closure is an obligation handed to a bound prover (dominating length facts, regexp sub-match count and shortest word from the pattern's automaton, range keys, length scenarios, caller-order preconditions, array bounds). " +
 			"C18.wrap: every fmt.Errorf of the five packages that has an error operand binds it with %w, and every error type carrying an error exposes it through Unwrap — the too-long sentinel produced at the guard is still what errors.Is finds at each entry point. C18.T3: every CFG cycle in the closure ranges over a finite collection, counts to a constant or a loaded length, or consumes a decoder token on each iteration. C18.entry: UnmarshalText (and size's UnmarshalJSON) hand the bytes they are given, whole and unchanged, to the package-level Parser, assign only on success and do not repeat the input in their own message (the too-long error would reproduce it). A call of a module function with the input in front of the guard is work unless that function has the guard itself or does no work on the text." +
 			" Added after the second rule audit: the entry set is open — exported functions and methods of the value packages that take a string or []byte, return an error last and hand back no text are entry points too (one named exception: size.New, whose string is a unit key); such a late entry has the guard itself or hands its text (or a part of it) to a guarded entry of the package before any call receives it or any loop reads it (RuleLimitLate), and is a root of the panic-site, bounds and loop rules." +
-			" C18.L 'limit use': a value read from MaxInputLength is compared or printed in the too-long message, nothing else (no reservation, pattern or bound built from it). C18.T1 also reports the dereference of a pointer obtained by a type assertion without a nil test. A helper that only reads the sentinel (errors.Is) does not produce it.",
-		NotDecided:  []string{"stdlib totality (regexp, strconv, encoding/json, fmt are assumed not to panic on any input)", "allocation size inside stdlib", "behaviour of user-supplied Parser/Formatter/ComparePreRelease replacements"},
+			" C18.L 'limit use': a value read from MaxInputLength is compared or printed in the too-long message, nothing else (no reservation, pattern or bound built from it). C18.T1 also reports the dereference of a pointer obtained by a type assertion without a nil test. A helper that only reads the sentinel (errors.Is) does not produce it. Since audit round 3: the continuation behind the guard is entered from the length test or the limit-is-zero test only; any rejection in front of the guard that is not the error of another guarded parse is reported; a late entry may not hand on a part of its text, succeed round the delegation, or wrap the error in one built from the input; a local copy of the limit is held to the same uses; two-ended slices carry the obligation low <= high.",
+		NotDecided:  []string{"the limit for entry points that cannot refuse (no error result: a bool-valued validator, DefaultComparePreRelease): they have nothing to reject with and are not held to C18.L", "stdlib totality (regexp, strconv, encoding/json, fmt are assumed not to panic on any input)", "allocation size inside stdlib", "behaviour of user-supplied Parser/Formatter/ComparePreRelease replacements"},
 		Assumptions: []string{"regexp.FindSubmatch returns nil or NumSubexp+1 entries", "a successful match implies len(subject) >= shortest word of the pattern", "json.Decoder returns object keys as string tokens"},
 		Technique:   "dominator/path rules + interval bound prover over go/ssa",
 	})
